@@ -605,9 +605,119 @@ def explore(job):
     return {"executions": execs, "complete": complete}
 
 
+def run_chained(job):
+    """Client programs chain work from done-callbacks: a callback attached to a pending Future enqueues a follow-up job
+    (return_future=True), as a passive callback, or from another thread meanwhile.  Every Future -- first stage, follow-up,
+    and jobs enqueued by other threads in between -- must complete with its own result.  Direct oracle only."""
+    L = load()
+    pg, qo, wk = L["pg"], L["qo"], L["wk"]
+    from semantiva.context_processors import ContextType
+    from semantiva.execution.executor.executor import SequentialSemantivaExecutor
+    _uniq[0] += 1
+    events = Events()
+    tr = L["RecTransport"](events)
+    orch = qo.QueueSemantivaOrchestrator(tr, stop_event=None, logger=make_logger(events, "master", _uniq[0]))
+    stop = threading.Event()
+    nw = int(job.get("workers", 2))
+    master = threading.Thread(target=orch.run_forever, daemon=True, name="c15-master")
+    workers = [threading.Thread(target=wk.worker_loop, daemon=True, name="c15-worker-%d" % w,
+                                args=(w, tr, SequentialSemantivaExecutor(), stop, make_logger(events, "w%d" % w, _uniq[0]), 0.01))
+               for w in range(nw)]
+    for t in [master] + workers:
+        t.start()
+    jobs = job["jobs"]
+    keep = []
+    direct = [list(pg.run_impl(jd["nodes"], jd.get("data"), jd.get("ctx", {}))) for jd in jobs]
+
+    def enq(jd):
+        cfg = build_cfg(L, jd, keep)
+        keep.append(cfg)
+        ctx = ContextType({a: pg.v_impl(v) for a, v in jd.get("ctx", {}).items()})
+        return orch.enqueue(cfg, data=pg.make_data(jd.get("data")), context=ctx, return_future=True)
+    stage2, cb_state, passive = {}, {}, []
+    first = []
+    problems = []
+    try:
+        for k, jd in enumerate(jobs):
+            f = enq(jd)
+            first.append(f)
+            if job.get("mode", "chain") == "chain":
+                def cb(fut, k=k, jd=jd):
+                    cb_state[k] = "entered"
+                    try:
+                        stage2[k] = enq(jd)
+                        cb_state[k] = "returned"
+                    except BaseException as ex:  # noqa
+                        cb_state[k] = "raised %r" % (ex,)
+                f.add_done_callback(cb)
+            else:
+                f.add_done_callback(lambda fut, k=k: passive.append(k))
+        late = []
+        t_late = threading.Thread(target=lambda: late.append(enq(jobs[0])), daemon=True)
+        deadline = time.time() + float(job.get("timeout_s", 8.0))
+        started_late = False
+        while time.time() < deadline:
+            if not started_late and all(f.done() for f in first[:1]):
+                t_late.start()
+                started_late = True
+            want2 = len(jobs) if job.get("mode", "chain") == "chain" else 0
+            if all(f.done() for f in first) and len(stage2) == want2 and all(f.done() for f in stage2.values()) and late and late[0].done():
+                break
+            time.sleep(0.01)
+
+        def res_of(f, k):
+            if not f.done():
+                return "pending"
+            if f.exception(timeout=0) is not None:
+                return ["failed", type(f.exception(timeout=0)).__name__]
+            data, _ctx = f.result(timeout=0)
+            return ["done", pg.canon_data(data)]
+        for k, f in enumerate(first):
+            r = res_of(f, k)
+            if r == "pending":
+                problems.append(["C15:future-never-completes:chained-callbacks:first-stage", "job %d: Future still pending" % k])
+            elif direct[k][0] == "done" and r != ["done", direct[k][1]]:
+                problems.append(["C15:wrong-result:chained-callbacks", "job %d: %s, direct execution %s" % (k, r, direct[k][:2])])
+        if job.get("mode", "chain") == "chain":
+            for k in range(len(jobs)):
+                if cb_state.get(k) != "returned":
+                    problems.append(["C15:future-never-completes:chained-callbacks:callback-stuck-in-enqueue",
+                                     "done-callback of job %d that enqueues a follow-up job: %s" % (k, cb_state.get(k, "never called"))])
+                elif res_of(stage2[k], k) == "pending":
+                    problems.append(["C15:future-never-completes:chained-callbacks:follow-up", "follow-up of job %d: Future still pending" % k])
+                elif direct[k][0] == "done" and res_of(stage2[k], k) != ["done", direct[k][1]]:
+                    problems.append(["C15:wrong-result:chained-callbacks", "follow-up of job %d: %s, direct %s" % (k, res_of(stage2[k], k), direct[k][:2])])
+        if not late or not late[0].done():
+            problems.append(["C15:future-never-completes:chained-callbacks:other-thread", "a job enqueued by another thread meanwhile: %s"
+                             % ("enqueue() did not return" if not late else "Future still pending")])
+    finally:
+        try:
+            orch.stop()
+        except Exception:  # noqa
+            pass
+        stop.set()
+    seen, out = set(), []
+    for sig, what in problems:
+        if sig not in seen:
+            seen.add(sig)
+            out.append([sig, what])
+    return {"problems": out, "master_alive": master.is_alive()}
+
+
 def main():
     job = json.load(sys.stdin)
     L = load()
+    if "chained" in job:
+        res = []
+        for j in job["chained"]:
+            try:
+                res.append(run_chained(j))
+            except Exception as ex:  # noqa
+                import traceback
+                res.append({"error": "%r\n%s" % (ex, traceback.format_exc()[-1200:])})
+        sys.stdout.write(json.dumps({"chained": res}))
+        sys.stdout.flush()
+        os._exit(0)
     if "explore" in job:
         out = explore(job)
         out["files"] = {m: os.path.realpath(L[m].__file__) for m in ("qo", "wk", "im")}
